@@ -121,7 +121,7 @@ def _task(X):
            'content_params': set(), 'problems': {}, 'raise_sites': set(), 'caught': set(), 'dict_reads': set(),
            'dict_other': set(), 'stores_per_pair': set(), 'key_compared': set(), 'sub_data': set(), 'sub_flags': set(),
            'order': set(), 'returned': set(), 'newline_checked': set(), 'version': set(), 'format': set(),
-           'yields_per_path': set(), 'le_values': set(), 'decode_enc': set(), 'util_encoding': set(), 'record_sharing': set()}
+           'yields_per_path': set(), 'le_values': set(), 'decode_enc': set(), 'util_encoding': set(), 'record_sharing': set(), 'decode_unit': set()}
     paths0, _ex0 = H.paths(pre + [Script(X, options='none')], max_paths=30000, det_prefix=len(hist))
     for p in paths0:
         ys0 = [e for e in p.events if e.kind == 'yield']
@@ -251,6 +251,11 @@ def _task(X):
             out['sub_flags'].add(flags)
             for dd in decs:
                 out['order'].add('strip-before-decode' if evs.index(e) < evs.index(dd) else 'decode-before-strip')
+        for dd in decs:
+            rv_ = dd.data.get('recv')
+            if isinstance(rv_, Unk):
+                whole = bool(getattr(rv_, 'joined', None)) or not any(x.src and x.src[0] in ('elem', 'summary-elem') for x in src_chain(rv_))
+                out['decode_unit'].add('whole content' if whole else 'one line at a time')
         for dd in decs:
             out['decode_enc'].add(option_origin(dd.data['encoding']) or str(concrete(dd.data['encoding'])) if is_concrete(dd.data['encoding']) else option_origin(dd.data['encoding']))
         # returned content: the value stored into the record under the content key
